@@ -511,10 +511,22 @@ fn extra(def: &PropDef, _args: &WorkerArgs, report: &mut WorkerReport) {
             }
         }
     }
+    {
+        let rep = double_stop_case();
+        if rep.inconclusive.is_none() {
+            if let Some(v) = report.absorb(def, &rep, &known) {
+                report.violation = Some((v.key, v.msg, json!({"double_stop": true})));
+                return;
+            }
+        }
+    }
     report.exhaustive = true;
 }
 
 fn replay(v: &Value) -> CaseReport {
+    if v.get("double_stop").is_some() {
+        return double_stop_case();
+    }
     let case: C16Case = serde_json::from_value(v.clone()).expect("case");
     run_case(&case)
 }
@@ -533,3 +545,98 @@ pub static C16: PropDef = PropDef {
     replay,
     extra: Some(extra),
 };
+
+// ---- two stop signals in a row: the process is stopped by the first, continued, and a second
+// stop-kind signal arrives right at the resume (while the first emulation may still be on the
+// stack). The kernel's default stops the process twice; so must the emulation.
+fn double_stop_probe(emulated: bool) -> (u32, String) {
+    let pid = unsafe { libc::fork() };
+    if pid < 0 {
+        return (0, "fork failed".into());
+    }
+    if pid == 0 {
+        unsafe { libc::setpgid(0, 0) };
+        normalise_signals();
+        if emulated {
+            crate::vsched::install();
+            for s in [libc::SIGTSTP, libc::SIGTTIN] {
+                let _ = signal_hook::flag::register_conditional_default(s, Arc::new(AtomicBool::new(true)));
+            }
+        }
+        // tell the parent we are ready by stopping ourselves the plain way first? no: just idle
+        loop {
+            std::thread::sleep(std::time::Duration::from_millis(1));
+        }
+    }
+    unsafe { libc::setpgid(pid, pid) };
+    std::thread::sleep(std::time::Duration::from_millis(30));
+    let wait_stop = |ms: u64| -> bool {
+        let t = std::time::Instant::now();
+        loop {
+            let mut st = 0;
+            let r = unsafe { libc::waitpid(pid, &mut st, libc::WNOHANG | libc::WUNTRACED) };
+            if r == pid && libc::WIFSTOPPED(st) {
+                return true;
+            }
+            if r == pid && (libc::WIFEXITED(st) || libc::WIFSIGNALED(st)) {
+                return false;
+            }
+            if t.elapsed().as_millis() as u64 > ms {
+                return false;
+            }
+            std::thread::sleep(std::time::Duration::from_micros(200));
+        }
+    };
+    let mut stops = 0;
+    let mut note = String::new();
+    unsafe { libc::kill(pid, libc::SIGTSTP) };
+    if wait_stop(3000) {
+        stops += 1;
+        unsafe {
+            libc::kill(pid, libc::SIGCONT);
+            libc::kill(pid, libc::SIGTTIN);
+        }
+        if wait_stop(2000) {
+            stops += 1;
+        } else {
+            note = "the second stop signal, sent right after SIGCONT, did not stop the process".into();
+        }
+    } else {
+        note = "the first SIGTSTP did not stop the process".into();
+    }
+    unsafe {
+        libc::kill(pid, libc::SIGKILL);
+        let mut st = 0;
+        libc::waitpid(pid, &mut st, 0);
+    }
+    (stops, note)
+}
+
+fn double_stop_case() -> CaseReport {
+    let mut rep = CaseReport::default();
+    rep.hash = hash_of(&"double-stop");
+    rep.class("two-stop-signals-in-a-row");
+    rep.nontrivial = true;
+    let (native, nnote) = double_stop_probe(false);
+    if native != 2 {
+        // (an orphaned process group makes the kernel discard terminal stop signals)
+        rep.inconclusive = Some(format!("native double-stop probe: {} stops ({})", native, nnote));
+        rep.sample = Some(json!({"double_stop": true, "native_stops": native}));
+        return rep;
+    }
+    // the race window is narrow: a handful of rounds
+    let mut worst = 2;
+    let mut note = String::new();
+    for _ in 0..5 {
+        let (e, n) = double_stop_probe(true);
+        if e < worst {
+            worst = e;
+            note = n;
+        }
+    }
+    rep.sample = Some(json!({"double_stop": true, "native_stops": native, "emulated_stops_min_of_5": worst}));
+    if worst != 2 {
+        rep.viol("C16/outcome/double-stop", format!("SIGTSTP, SIGCONT and SIGTTIN in a row: the kernel's default stops the process twice, with both signals emulated through register_conditional_default it stopped {} time(s): {}", worst, note));
+    }
+    rep
+}
